@@ -165,7 +165,7 @@ def raw_case(draw):
     route = draw(st.sampled_from(routes))
     if route == "from_arrays2d":
         V = [[v[0], v[1], 0.0] for v in V]
-    prefill = bool(F) and draw(st.integers(0, 3)) == 0
+    prefill = bool(F or C) and draw(st.integers(0, 3)) == 0   # (corner records of declared faces AND of the cells, as the importers fill them)
     int_vertices = draw(st.integers(0, 3)) == 0     # integral coordinates handed over as python ints / int64 rows
     dup_warn = draw(st.integers(0, 3)) == 0         # config.display_duplicate_attribute_warning (create_attribute then returns an existing attribute)
     row_dtype = draw(st.sampled_from(["int64", "int32", "int16", "uint16", "uint8", "uint8", "uint8"]))   # dtype of numpy index rows
@@ -231,6 +231,8 @@ def build_raw(case, form=None):
         # what the file importers do: corner records for the declared faces are filled in by the producer of the raw data
         for iF, f in enumerate(case["F"]):
             raw.face_corners += [(int(v), iF) for v in f]
+        for iC, c in enumerate(case["C"]):
+            raw.cell_corners += [(int(v), iC) for v in c]
     for a in case["attrs"]:
         at = raw.edges.create_attribute(a["name"], PYTYPE[a["type"]], a["arity"], dense=a["dense"])
         for i, v in a["values"].items():
@@ -286,13 +288,22 @@ def attr_read(at, i):
     return v.item() if hasattr(v, "item") else v
 
 
-def check_normal_form(case, m, ctx, tag=""):
+def _by_arity(rows):
+    out = {}
+    for r in rows:
+        out.setdefault(len(r), []).append(list(r))
+    return out
+
+
+def check_normal_form(case, m, ctx, tag="", per_kind=False):
+    """per_kind: the declared faces (cells) are compared kind by kind (triangles in their order, quads in their order, ...) instead
+    of as one sequence - for a file format that stores each kind in a block of its own and fixes no order between the blocks"""
     nf = normal_form(case)
     V = case["V"]
     N = len(V)
     dim = nf["dim"]
     # class
-    if case["route"] in ("instanciate", "from_arrays", "from_arrays2d"):
+    if case["route"] in ("instanciate", "from_arrays", "from_arrays2d", "file"):
         ctx.check(type(m).__name__ == CLASSES[dim], "class", f"{tag}built object is a {type(m).__name__}, content implies {CLASSES[dim]}")
     # vertices
     good = ctx.check(len(m.vertices) == N, "vertices", f"{tag}{len(m.vertices)} vertices, expected {N}")
@@ -348,7 +359,8 @@ def check_normal_form(case, m, ctx, tag=""):
     # faces
     mfaces = [list(ints(f)) for f in m.faces]
     nF0 = len(case["F"])
-    good = ctx.check(mfaces[:nF0] == [list(f) for f in case["F"]], "faces:declared", f"{tag}declared faces changed: {mfaces[:nF0][:5]} vs {case['F'][:5]}")
+    same = (_by_arity(mfaces[:nF0]) == _by_arity(case["F"])) if per_kind else (mfaces[:nF0] == [list(f) for f in case["F"]])
+    good = ctx.check(same, "faces:declared", f"{tag}declared faces changed: {mfaces[:nF0][:5]} vs {case['F'][:5]}")
     exp_faces = nf["faces"]
     good = ctx.check(len(mfaces) == len(exp_faces), "faces:completed", f"{tag}{len(mfaces)} faces, expected {len(exp_faces)} (declared {nF0} + completed from cells, shared faces once)") and good
     if good:
@@ -376,7 +388,8 @@ def check_normal_form(case, m, ctx, tag=""):
         return
     # cells
     mcells = [list(ints(c)) for c in m.cells]
-    if not ctx.check(mcells == [list(c) for c in case["C"]], "cells", f"{tag}cells changed"):
+    same = (_by_arity(mcells) == _by_arity(case["C"])) if per_kind else (mcells == [list(c) for c in case["C"]])
+    if not ctx.check(same, "cells", f"{tag}cells changed: {mcells[:4]} vs {case['C'][:4]}"):
         return
     cc = m.cell_corners
     exp_el = [v for c in mcells for v in c]
@@ -470,7 +483,7 @@ def fn(case, ctx):
     invalid = [i for i, (a, b) in enumerate(case["E"]) if not (a != b and 0 <= a < N and 0 <= b < N)]
     inv_attr = any(str(i) in a["values"] for a in case["attrs"] for i in invalid)
     if invalid: ctx.label("invalid-edges")
-    if case.get("prefill_corners"): ctx.label("prefilled-face-corners")
+    if case.get("prefill_corners"): ctx.label("prefilled-face-corners" + ("+cell-corners" if case["C"] else ""))
     if case.get("dup_warn"): ctx.label("config:duplicate-attribute-warning=on")
     if case["form"] == "numpy": ctx.label("row-dtype=" + case.get("row_dtype", "int64"))
     if case.get("int_vertices") and all(float(x).is_integer() for v in case["V"] for x in v): ctx.label("int-typed-vertices")
@@ -523,5 +536,253 @@ def fn(case, ctx):
                     break
 
 
-SUBCHECKS = [SubCheck("normalise", raw_case(), fn, quick=3600, thorough=5000)]
+# ------------------------------------------------------------------ construction from a file
+
+# An .off line "2 a b" (a two-vertex element = a declared edge, for which parse_off_data has a branch of its own) makes load() raise
+# on the unchanged library (the two indices stay strings: TypeError in RawMeshData._prepare_edges); proposed repair
+# scratch/fixes/C02-r6-off-edge-lines.diff. The class is generated only when this is True.
+OFF_EDGE_LINES = False
+
+FILE_KINDS = {
+    "obj": ["surface", "anyfaces", "anyfaces", "edges+faces", "edges+faces", "polyline", "points"],
+    "off": ["surface", "anyfaces", "tets", "tets+faces", "tets+faces", "tets+faces", "tets+faces", "points"],
+    "mesh": ["surface", "anyfaces", "edges+faces", "polyline", "tets", "tets+faces", "tets+faces", "hexes", "hexes+faces", "mixed_cells", "points"],
+    "geogram_ascii": ["surface", "anyfaces", "edges+faces", "polyline", "tets", "tets+faces", "tets+faces", "hexes", "hexes+faces", "mixed_cells", "points"],
+    "tet": ["tets", "tets", "cell_soup"],
+    "xyz": ["points"],
+}
+# face arities a format can express (.off: a 4-entry line is a tetrahedron in the importer's documented dialect; medit: triangles and quads)
+FILE_ARITIES = {"obj": [3, 4, 5, 6, 7], "geogram_ascii": [3, 4, 5, 6, 7], "off": [3, 5, 6, 7], "mesh": [3, 4]}
+
+
+def _fan(F, allowed):
+    """faces whose arity the format cannot express are split into a fan of triangles"""
+    out = []
+    for f in F:
+        if len(f) in allowed:
+            out.append(list(f))
+        else:
+            out += [[f[0], f[k], f[k + 1]] for k in range(1, len(f) - 1)]
+    return out
+
+
+def _interleave(draw, counts):
+    """a sequence of element records [kind, index] holding counts[kind] records of each kind: kind after kind (in a drawn order of
+    the kinds) or shuffled; the records of one kind keep their relative order"""
+    kinds = [k for k in counts if counts[k]]
+    mode = draw(st.sampled_from(["blocks", "blocks", "shuffled"]))
+    kinds = draw(st.permutations(kinds)) if kinds else []
+    labels = [k for k in kinds for _ in range(counts[k])]
+    if mode == "shuffled":
+        random.Random(draw(st.integers(0, 999))).shuffle(labels)
+    nxt = {k: 0 for k in counts}
+    out = []
+    for k in labels:
+        out.append([k, nxt[k]]); nxt[k] += 1
+    return out
+
+
+@st.composite
+def file_case(draw):
+    fmt = draw(st.sampled_from(["obj", "obj", "off", "off", "mesh", "mesh", "geogram_ascii", "geogram_ascii", "tet", "xyz"]))
+    kind = draw(st.sampled_from(FILE_KINDS[fmt]))
+    ar = FILE_ARITIES.get(fmt, [])
+    V, F, C = [], [], []
+    if kind == "points":
+        V = [[float(i), 0.5 * i, 1.0 - 0.25 * i] for i in range(draw(st.integers(1, 6)))]
+    elif kind == "polyline":
+        V = [[float(i), float(i % 3), 0.5 * (i % 2)] for i in range(draw(st.integers(2, 8)))]
+    elif kind == "surface":
+        s = draw(G.surfaces(max_faces=20, max_ops=3))
+        V, F = s["V"], _fan(s["F"], ar)
+    elif kind in ("anyfaces", "edges+faces"):
+        n = draw(st.integers(3, 9))
+        V = [[float(i), float(i * i % 4), float(i % 2)] for i in range(n)]
+        sizes = [a for a in ar if a <= n]
+        F = draw(st.lists(st.sampled_from(sizes).flatmap(lambda a: st.lists(st.integers(0, n - 1), min_size=a, max_size=a, unique=True)),
+                          min_size=1, max_size=5))
+    elif kind in ("tets", "tets+faces"):
+        t = draw(GT.tets(max_cells=8))
+        V, C = t["V"], t["C"]
+    elif kind == "cell_soup":
+        n = draw(st.integers(4, 7))
+        V = [[float(i), float(i * i % 3), float(i % 2) + 0.5 * i] for i in range(n)]
+        C = draw(st.lists(st.lists(st.integers(0, n - 1), min_size=4, max_size=4, unique=True), min_size=1, max_size=5))
+    elif kind in ("hexes", "hexes+faces"):
+        V, C = hex_grid(draw(st.integers(1, 2)), draw(st.integers(1, 2)), 1)
+    else:   # mixed_cells
+        Vh, Ch = hex_grid(draw(st.integers(1, 2)), 1, 1)
+        t = draw(GT.tets(max_cells=4))
+        V = Vh + [[x + 10.0 for x in v] for v in t["V"]]
+        C = Ch + [[v + len(Vh) for v in c] for c in t["C"]]
+        random.Random(draw(st.integers(0, 999))).shuffle(C)
+    N = len(V)
+    complete_edges = draw(st.sampled_from([True, True, True, False]))
+    complete_faces = True
+    if C and fmt != "tet":
+        allf, seen = [], set()
+        for c in C:
+            for t in (TET_FACES if len(c) == 4 else HEX_FACES):
+                f = [c[i] for i in t]
+                if key(f) not in seen:
+                    seen.add(key(f)); allf.append(f)
+        declare = "none"
+        if kind.endswith("+faces") or kind == "mixed_cells":
+            declare = draw(st.sampled_from(["all", "all-off", "some", "some", "some+other"])) if kind.endswith("+faces") else draw(st.sampled_from(["none", "some", "all"]))
+        if declare in ("all", "all-off"):
+            F = [list(f) for f in allf]
+            random.Random(draw(st.integers(0, 999))).shuffle(F)
+            complete_faces = declare == "all"          # every face of every cell is declared: the completion may be switched off
+        elif declare.startswith("some"):
+            sub = draw(st.lists(st.integers(0, len(allf) - 1), unique=True, min_size=1, max_size=6))
+            F = [list(allf[i]) for i in sub]
+        F = [f[::-1] if draw(st.booleans()) else f[k:] + f[:k] for f in F for k in [draw(st.integers(0, 2))]]
+        if declare == "some+other":
+            # a face that belongs to no cell (a polygon the format can express) among the declared ones
+            a = draw(st.sampled_from([x for x in ar if x <= N]))
+            g = draw(st.lists(st.integers(0, N - 1), min_size=a, max_size=a, unique=True))
+            if key(g) not in seen:
+                F.insert(draw(st.integers(0, len(F))), g)
+    # declared edges: valid and pairwise distinct (a file names existing vertices), either orientation
+    E = []
+    if fmt in ("obj", "mesh", "geogram_ascii") or (fmt == "off" and OFF_EDGE_LINES):
+        sides = sorted(set(key(f[i], f[(i + 1) % len(f)]) for f in F for i in range(len(f))))
+        ne = draw(st.integers(1, 8)) if kind in ("polyline", "edges+faces") else draw(st.integers(0, 3)) if kind != "points" else 0
+        used = set()
+        for _ in range(ne):
+            if sides and draw(st.booleans()):
+                e = list(sides[draw(st.integers(0, len(sides) - 1))])
+            else:
+                e = [draw(st.integers(0, N - 1)), draw(st.integers(0, N - 1))]
+            if e[0] == e[1] or key(e) in used:
+                continue
+            used.add(key(e))
+            E.append(e[::-1] if draw(st.booleans()) else e)
+    # order of the element records in the file
+    order = []
+    if fmt == "off":
+        order = _interleave(draw, {"f": len(F), "c": len(C), "e": len(E)})
+    elif fmt == "obj":
+        order = _interleave(draw, {"l": len(E), "f": len(F)})
+    # what a vertex record carries after its three coordinates
+    vextra, var = [], {"floats": draw(st.sampled_from(["repr", "repr", "17g", "17e"])), "seed": draw(st.integers(0, 11))}
+    if fmt == "obj":
+        how = draw(st.sampled_from(["none", "w", "rgb", "w-some", "rgb-some"]))
+        for i in range(N):
+            if how == "none" or (how.endswith("some") and (i + var["seed"]) % 3 == 0):
+                vextra.append([])
+            elif how.startswith("w"):
+                vextra.append([1.0])
+            else:
+                vextra.append([((i * 37) % 11) / 10.0, ((i * 53 + 7) % 13) / 13.0, 1.0])
+        var["comments"] = draw(st.booleans())
+    elif fmt == "mesh":
+        var.update(refs=draw(st.booleans()), blank=draw(st.booleans()), dim_two_lines=draw(st.booleans()), extra_blocks=draw(st.booleans()))
+    elif fmt == "xyz":
+        if draw(st.booleans()):
+            vextra = [[float((i * 3) % 7 - 3), float((i * 5) % 11 - 5) / 4.0, 1.0 + i] for i in range(N)]
+        var["blank"] = draw(st.booleans())
+    elif fmt in ("off", "tet"):
+        var.update(blank=draw(st.booleans()), spaces=draw(st.booleans()))
+    elif fmt == "geogram_ascii":
+        var["comments"] = draw(st.booleans())
+    via = draw(st.sampled_from(["load", "load", "load_raw+ctor", "load+rebuild"]))
+    return {"kind": kind, "fmt": fmt, "V": V, "E": E, "F": F, "C": C, "order": order, "vextra": vextra, "var": var, "route": "file", "via": via,
+            "form": "file", "attrs": [], "complete_edges": complete_edges, "complete_faces": complete_faces, "manifold": False}
+
+
+def file_text(case):
+    """content of the file (written from the descriptions of the formats, by code that shares nothing with mouette/mesh/io)"""
+    from vlib import ref_codecs as R
+    fmt, V, E, F, C, var = case["fmt"], case["V"], case["E"], case["F"], case["C"], case["var"]
+    num = lambda x: R.fmt_float(x, var.get("floats", "repr"))
+    if fmt == "obj":
+        out = ["# written by the reference writer\n"] if var.get("comments") else []
+        for i, v in enumerate(V):
+            out.append("v " + " ".join(num(c) for c in list(v) + list(case["vextra"][i])) + "\n")
+        if var.get("comments"):
+            out.append("# elements\no part\n")
+        for k, i in case["order"]:
+            if k == "l":
+                out.append(f"l {E[i][0] + 1} {E[i][1] + 1}\n")
+            else:
+                out.append("f " + " ".join(str(v + 1) for v in F[i]) + "\n")
+        return "".join(out)
+    if fmt == "off":
+        out = ["OFF\n", f"{len(V)} {len(case['order'])} 0\n"]
+        k = 2
+        for v in V:
+            out.append(R._join([num(c) for c in v], var, k) + "\n" + R._blank(var, k)); k += 1
+        for kd, i in case["order"]:
+            row = {"f": F, "c": C, "e": E}[kd][i]
+            out.append(R._join([str(len(row))] + [str(x) for x in row], var, k) + "\n" + R._blank(var, k)); k += 1
+        return "".join(out)
+    if fmt == "mesh":
+        return R.write_medit(V, E, [f for f in F if len(f) == 3], [f for f in F if len(f) == 4],
+                             [c for c in C if len(c) == 4], [c for c in C if len(c) == 8], var)
+    if fmt == "geogram_ascii":
+        return R.write_geogram(V, E, F, C, None, var)
+    if fmt == "tet":
+        return R.write_tet(V, C, var)
+    if fmt == "xyz":
+        return R.write_xyz(V, case["vextra"] or None, var)
+    raise ValueError(fmt)
+
+
+def fn_file(case, ctx):
+    import mouette as M
+    from mouette.mesh.mesh_data import RawMeshData
+    fmt = case["fmt"]
+    nf = normal_form(case)
+    nk = sum(1 for k in ("E", "F", "C") if case[k])
+    ctx.label("file:fmt=" + fmt, "file:kind=" + case["kind"], "file:via=" + case["via"],
+              f"complete_edges={case['complete_edges']}", f"complete_faces={case['complete_faces']}")
+    if case["F"] and case["C"]:
+        ctx.label("file:faces-and-cells")
+        if fmt == "off":
+            kinds = [k for k, _ in case["order"] if k in "fc"]
+            blocks = sum(1 for a, b in zip(kinds, kinds[1:]) if a != b)
+            ctx.label("file:off-records=" + ("interleaved" if blocks > 1 else "faces-first" if kinds[0] == "f" else "cells-first"))
+    if case["E"] and case["F"]:
+        ctx.label("file:declared-edges-and-faces")
+    extra = sorted(set(len(x) for x in case["vextra"]))
+    if fmt in ("obj", "xyz") and extra != [] and extra != [0]:
+        ctx.label(f"file:{fmt}-vertex-record-extra-columns={'/'.join(map(str, extra))}")
+    if fmt == "mesh" and case["var"].get("refs"):
+        ctx.label("file:medit-nonzero-refs")
+    if fmt == "off" and any(k == "e" for k, _ in case["order"]):
+        ctx.label("file:off-edge-lines")
+    ctx.nontrivial(nk >= 2 or bool(extra and extra != [0]) or case["via"] != "load" or bool(case["var"].get("refs")))
+
+    M.config.complete_edges_from_faces = bool(case["complete_edges"])
+    M.config.complete_faces_from_cells = bool(case["complete_faces"])
+    M.config.display_duplicate_attribute_warning = False
+    cls = getattr(M.mesh, CLASSES[nf["dim"]])
+    per_kind = fmt == "mesh"
+    d = tempfile.mkdtemp(prefix="c02f_")
+    try:
+        path = os.path.join(d, "m." + fmt)
+        with open(path, "w") as f:
+            f.write(file_text(case))
+        if case["via"] == "load_raw+ctor":
+            ok, raw = ctx.call("file:load", M.mesh.load, path, raw=True)
+            if not ok:
+                return
+            ok, m = ctx.call("file:ctor", cls, raw)
+        else:
+            ok, m = ctx.call("file:load", M.mesh.load, path)
+        if not ok or m is None:
+            return
+        tag = f"[loaded from a .{fmt} file] "
+        check_normal_form(case, m, ctx, tag=tag, per_kind=per_kind)
+        if case["via"] == "load+rebuild":
+            ok, m2 = ctx.call("construct:rebuild", lambda mm: cls(RawMeshData(mm)), m)
+            if ok:
+                check_normal_form(case, m2, ctx, tag=f"[loaded from a .{fmt} file, then built again from the built mesh] ", per_kind=per_kind)
+    finally:
+        shutil.rmtree(d, ignore_errors=True)
+
+
+SUBCHECKS = [SubCheck("normalise", raw_case(), fn, quick=3600, thorough=5000),
+             SubCheck("file", file_case(), fn_file, quick=900, thorough=1500)]
 MATCHERS = {}
